@@ -90,6 +90,10 @@ type Spec struct {
 	// reports the fully resolved names of the files it wrote.
 	PhysPaths bool `json:"phys_paths"`
 	DirSlash  bool `json:"dir_slash"` // directory outputs are reported as ".../name/"
+	// PsdirSpelling: how the pipestance directory is spelled when it is handed to the
+	// runtime, as --psdir=PATH does verbatim for absolute paths: "" clean, "slash"
+	// trailing slash, "dot" a /./ component, "dslash" a doubled separator
+	PsdirSpelling string `json:"psdir_spelling"`
 	// RelFiles: top-level output name -> path relative to the working directory mrp is started
 	// in; the file is created there (it is named by an invocation argument that the pipeline
 	// passes through) and must be available under outs/<name> afterwards
@@ -195,6 +199,19 @@ var chunkRe = regexp.MustCompile(`^chnk(\d+)(?:-u[0-9a-f]{10})?$`)
 var sjRe = regexp.MustCompile(`^(split|join)(?:-u[0-9a-f]{10})?$`)
 
 // rel makes a path relative to the pipestance directory.
+// psdirArg is the pipestance directory as the runtime is given it.
+func (d *Driver) psdirArg() string {
+	switch d.spec.PsdirSpelling {
+	case "slash":
+		return d.psdir + "/"
+	case "dot":
+		return path.Dir(d.psdir) + "/./" + path.Base(d.psdir)
+	case "dslash":
+		return path.Dir(d.psdir) + "//" + path.Base(d.psdir)
+	}
+	return d.psdir
+}
+
 func (d *Driver) rel(p string) string {
 	if r, err := filepath.Rel(d.psdir, p); err == nil && !strings.HasPrefix(r, "..") {
 		return r
@@ -978,7 +995,7 @@ func Run(spec *Spec, workdir string) (res *Result) {
 	d.rt = rt
 	core.VerifHook = d.hook
 	d.tr.Emit("RunBegin", "name", spec.Name)
-	ps, err := rt.InvokePipeline(invSrc, srcPath, d.psid, d.psdir, []string{mroPath}, "v", map[string]string{}, nil)
+	ps, err := rt.InvokePipeline(invSrc, srcPath, d.psid, d.psdirArg(), []string{mroPath}, "v", map[string]string{}, nil)
 	if err != nil {
 		res.Error = "invoke: " + err.Error()
 		return
@@ -1029,7 +1046,7 @@ func Run(spec *Spec, workdir string) (res *Result) {
 			return
 		}
 		d.rt = rt2
-		ps2, err := rt2.ReattachToPipestance(d.psid, d.psdir, "", "", []string{mroPath}, "v",
+		ps2, err := rt2.ReattachToPipestance(d.psid, d.psdirArg(), "", "", []string{mroPath}, "v",
 			map[string]string{}, true, false, ctx)
 		if err != nil {
 			res.Error = "reattach: " + err.Error()
